@@ -131,3 +131,20 @@ Fixpoint health_run (accept_all : bool) (backlog : nat) (bursts : list nat) : na
       let '(ans', rest') := health_run accept_all rest r in
       ((ans + ans')%nat, rest')
   end.
+
+(* the same listener with a bound on the number of accepts per readiness event (None: accept until
+   WouldBlock — the code as it is; Some k: any fixed cap, e.g. "for fairness") *)
+Definition health_event_cap (cap : option nat) (backlog : nat) : nat * nat :=
+  match cap with
+  | None => (backlog, O)
+  | Some k => (Nat.min k backlog, backlog - Nat.min k backlog)%nat
+  end.
+
+Fixpoint health_run_cap (cap : option nat) (backlog : nat) (bursts : list nat) : nat * nat :=
+  match bursts with
+  | [] => (O, backlog)
+  | b :: r =>
+      let '(ans, rest) := health_event_cap cap (backlog + b) in
+      let '(ans', rest') := health_run_cap cap rest r in
+      ((ans + ans')%nat, rest')
+  end.
